@@ -963,3 +963,29 @@ package main
 //@ fieldtag baseConfig.PasswordAttemptGlobalBurstLimit yaml "password_attempt_global_burst_limit"   #C14.burst-read-from-the-documented-key @C14
 //@ fieldtag baseConfig.PasswordAttemptGlobalRateLimit yaml "password_attempt_global_rate_limit"   #C14.rate-read-from-the-documented-key @C14
 //@ fieldtag baseConfig.AllowedAuthBackendsForCerts yaml "allowed_auth_backends_for_certs"   #C01.listed-methods-read-from-the-documented-key @C01
+
+// ---- the documented configuration keys the properties' "the operator listed/configured" refer to (yaml.v2 reads an
+// untagged field under its lower-cased name) -------------------------------------------------------------------
+//@ fieldtag AppConfigFile.Base yaml "base"   #C01.base-section-read-from-the-documented-key @C01,C02,C04,C08,C11,C14
+//@ fieldtag AppConfigFile.DenyTrustData yaml "denytrustdata"   #C06.deny-list-section-read-from-the-documented-key @C06
+//@ fieldtag DenyKeyConfig.KeyDenyFPsshSha256 yaml "key_deny_list_ssh_sha256"   #C06.deny-list-read-from-the-documented-key @C06
+//@ fieldtag baseConfig.AllowedAuthBackendsForWebUI yaml "allowed_auth_backends_for_webui"   #C01.web-ui-methods-read-from-the-documented-key @C01,C05
+//@ fieldtag baseConfig.AdminUsers yaml "admin_users"   #C08.admin-users-read-from-the-documented-key @C08
+//@ fieldtag baseConfig.AdminGroups yaml "admin_groups"   #C08.admin-groups-read-from-the-documented-key @C08
+//@ fieldtag baseConfig.AllowSelfServiceBootstrapOTP yaml "allow_self_service_bootstrap_otp"   #C08.self-service-otp-read-from-the-documented-key @C08
+//@ fieldtag baseConfig.AutomationUsers yaml "automation_users"   #C11.automation-users-read-from-the-documented-key @C11,C08
+//@ fieldtag baseConfig.AutomationUserGroups yaml "automation_user_groups"   #C11.automation-groups-read-from-the-documented-key @C11,C08
+//@ fieldtag baseConfig.AutomationAdmins yaml "automation_admins"   #C11.automation-admins-read-from-the-documented-key @C11,C08
+//@ fieldtag baseConfig.HostIdentity yaml "host_identity"   #C04.host-identity-read-from-the-documented-key @C04
+//@ fieldtag baseConfig.KeymasterPublicKeysFilename yaml "keymaster_public_keys_filename"   #C06.trusted-keys-file-read-from-the-documented-key @C06,C04
+//@ fieldtag baseConfig.DisableUsernameNormalization yaml "disable_username_normalization"   #C02.normalisation-switch-read-from-the-documented-key @C02
+//@ fieldtag baseConfig.SSHCertConfig yaml "ssh_cert_config"   #C02.ssh-extension-section-read-from-the-documented-key @C02
+//@ fieldtag sshCertConfig.Extensions yaml "extensions"   #C02.ssh-extensions-read-from-the-documented-key @C02
+//@ fieldtag sshExtension.Key yaml "key"   #C02.ssh-extension-name-read-from-the-documented-key @C02
+//@ fieldtag sshExtension.Value yaml "value"   #C02.ssh-extension-value-read-from-the-documented-key @C02
+//@ fieldtag AppConfigFile.OpenIDConnectIDP yaml "openid_connect_idp"   #C13.idp-section-read-from-the-documented-key @C13,C12
+//@ fieldtag OpenIDConnectIDPConfig.Client yaml "clients"   #C13.clients-read-from-the-documented-key @C13,C12
+//@ fieldtag AppConfigFile.Ldap yaml "ldap"   #C07.ldap-section-read-from-the-documented-key @C07
+//@ fieldtag LdapConfig.DisablePasswordCache yaml "disable_password_cache"   #C07.cache-switch-read-from-the-documented-key @C07
+//@ fieldtag AppConfigFile.ProfileStorage yaml "profilestorage"   #C15.storage-section-read-from-the-documented-key @C15
+//@ fieldtag ProfileStorageConfig.StorageUrl yaml "storage_url"   #C15.storage-url-read-from-the-documented-key @C15
